@@ -253,7 +253,6 @@ class PiecewiseConstantBirthDeath(Distribution):
     def log_prob(self, node_heights: torch.Tensor):
         taxa_shape = node_heights.shape[:-1] + (int((node_heights.shape[-1] + 1) / 2),)
         tip_heights = node_heights[..., : taxa_shape[-1]]
-        serially_sampled = torch.any(tip_heights > 0.0)
 
         m = max(self.lambda_.shape[-1], self.mu.shape[-1])
 
@@ -331,21 +330,23 @@ class PiecewiseConstantBirthDeath(Distribution):
 
         y = times[..., -1:] - tip_heights
 
-        if serially_sampled:
-            # a tip sampled exactly at t_i belongs to the epoch that ends there: it is
-            # not counted among the lineages crossing t_i (ni below) and it is the
-            # rho of that epoch that decides whether it is a rho-tip
-            indices_y = torch.clamp(
-                torch.searchsorted(times, y, right=False) - 1, min=0, max=m - 1
-            )
-            # true if the node of the given index occurs at the time of a
-            # rho-sampling event
-            is_rho_tip = (
-                torch.sum(times.unsqueeze(-2) == y.unsqueeze(-1), -1)
-                * rho.gather(-1, indices_y)
-                > 0.0
-            )
+        # a tip sampled exactly at t_i belongs to the epoch that ends there: it is
+        # not counted among the lineages crossing t_i (ni below) and it is the
+        # rho of that epoch that decides whether it is a rho-tip
+        indices_y = torch.clamp(
+            torch.searchsorted(times, y, right=False) - 1, min=0, max=m - 1
+        )
+        # true if the node of the given index occurs at the time of a
+        # rho-sampling event
+        is_rho_tip = (
+            torch.sum(times.unsqueeze(-2) == y.unsqueeze(-1), -1)
+            * rho.gather(-1, indices_y)
+            > 0.0
+        )
 
+        # tips that are not rho-tips were sampled through time (psi), also those at
+        # the present when there is no rho-sampling then
+        if torch.any(~is_rho_tip):
             if self.removal_probability is not None:
                 r = self.removal_probability.gather(-1, indices_y)
                 p0 = self.p0(
